@@ -78,11 +78,14 @@ func (l lagCtx) Deadline() (time.Time, bool) { return l.dl, true }
 
 // TStep is one step of a ticker script.
 //
-//	new d j | sleep dt | wait | poll | reset d j | stop
+//	new d j | sleep dt | wait | poll | collect | reset d j | stop
 //
 // "sleep" lets the virtual clock run for dt in the scripting goroutine WITHOUT waiting for the other
 // goroutines to settle: the next step races with whatever became runnable at that instant. "wait" is
-// synctest.Wait(). "stop" is Stop() followed at once by a non-blocking drain of the channel (a tick
+// synctest.Wait(). "collect" receives (blocking, in a helper goroutine) every tick that arrives until the
+// bubble is quiescent - unlike "wait; poll" it also sees several ticks sent at one virtual instant (the
+// channel holds one tick; a tick that finds it full is dropped); for the model it is a sequence of
+// "poll tick T" followed by "settle". "stop" is Stop() followed at once by a non-blocking drain of the channel (a tick
 // found there was sent before Stop returned).
 type TStep struct {
 	Op string `json:"op"`
@@ -91,13 +94,17 @@ type TStep struct {
 }
 
 type Case struct {
-	Kind  string     `json:"kind"` // sleep | ticker | ticker-real | stop-real | sleep-real
+	Kind  string     `json:"kind"` // sleep | ticker | ticker-real | stop-real | sleep-real | race-real
 	Sleep *SleepCase `json:"sleep,omitempty"`
 	Real  *RealCase  `json:"real,omitempty"`
+	Race  *RaceCase  `json:"race,omitempty"` // race_test.go
 	Steps []TStep    `json:"steps,omitempty"`
 	Seed  int64      `json:"seed"` // math/rand seed used for this case
 	// NoModel: durations too large for the model's enumeration of rand values (monitors only)
 	NoModel bool `json:"no_model,omitempty"`
+	// PanicModel (with NoModel): the panic outcome of the script's NewJitterTicker / first Reset is still
+	// compared with the model (`newp` / `resetp` of the driver: no state set, no enumeration)
+	PanicModel bool `json:"panic_model,omitempty"`
 }
 
 func (c Case) String() string {
@@ -320,6 +327,20 @@ type paramSet struct {
 
 func validParams(d, j int64) bool { return d > 0 && j >= 0 && j < d }
 
+// sumOverflows: d + jitter does not fit into a Duration (for documented arguments: jitter > MaxInt64 - d).
+// That is the input class of D21: the largest interval the ticker may draw, d + jitter, is not
+// representable, and for jitter >= 2^62 neither is 2*jitter + 1.
+func sumOverflows(d, j int64) bool { return d > 0 && j >= 0 && j > math.MaxInt64-d }
+
+// tickerParams: the (small, stable) parameters of a ticker failure.
+func tickerParams(d, j int64) map[string]interface{} {
+	p := map[string]interface{}{"jitter_zero": j == 0}
+	if sumOverflows(d, j) {
+		p["d_plus_jitter_overflows"] = true
+	}
+	return p
+}
+
 func runTicker(t *testing.T, steps []TStep, seed int64) tickerRun {
 	var r tickerRun
 	synctest.Test(t, func(t *testing.T) {
@@ -337,9 +358,49 @@ func runTicker(t *testing.T, steps []TStep, seed int64) tickerRun {
 				r.fail = &fail{kind, p, what}
 			}
 		}
-		poll := func(drainAfterStop bool) {
+		var poll func(drainAfterStop bool)
+		var got *time.Time // a tick handed over by "collect"
+		// collect: a helper goroutine receives until the bubble is quiescent
+		collect := func() {
+			var mu sync.Mutex
+			var ticks []time.Time
+			quit, done := make(chan struct{}), make(chan struct{})
+			go func() {
+				defer close(done)
+				for {
+					select {
+					case v := <-tk.C:
+						mu.Lock()
+						ticks = append(ticks, v)
+						mu.Unlock()
+					case <-quit:
+						return
+					}
+				}
+			}()
+			synctest.Wait()
+			close(quit)
+			<-done
+			for i := range ticks {
+				if i >= 8 {
+					break
+				}
+				got = &ticks[i]
+				poll(false)
+			}
+			got = nil
+			r.lines = append(r.lines, "settle")
+			settled = true
+		}
+		poll = func(drainAfterStop bool) {
+			var in <-chan time.Time = tk.C
+			if got != nil {
+				c := make(chan time.Time, 1)
+				c <- *got
+				in = c
+			}
 			select {
-			case v := <-tk.C:
+			case v := <-in:
 				ts := int64(v.Sub(start))
 				r.lines = append(r.lines, fmt.Sprintf("poll tick %d", ts))
 				r.ticks++
@@ -351,15 +412,21 @@ func runTicker(t *testing.T, steps []TStep, seed int64) tickerRun {
 					// the parameters that can have been in force when this tick was sent
 					var minGap int64 = -1
 					var pd, pj int64
+					ovf := false
 					for i, h := range hist {
 						if h.at <= ts && (i == len(hist)-1 || hist[i+1].at >= ts) {
 							if g := h.d - h.j; minGap < 0 || g < minGap {
 								minGap, pd, pj = g, h.d, h.j
 							}
+							ovf = ovf || sumOverflows(h.d, h.j)
 						}
 					}
 					if minGap >= 0 && ts-lastTick < minGap {
-						setFail("ticker-spacing", map[string]interface{}{"jitter_zero": pj == 0},
+						fp := tickerParams(pd, pj)
+						if ovf { // one of the parameter sets that can have been in force is of the D21 class
+							fp["d_plus_jitter_overflows"] = true
+						}
+						setFail("ticker-spacing", fp,
 							fmt.Sprintf("consecutive ticks at %s and %s are %s apart, less than d - jitter = %s - %s",
 								dur(lastTick), dur(ts), dur(ts-lastTick), dur(pd), dur(pj)))
 					}
@@ -380,7 +447,7 @@ func runTicker(t *testing.T, steps []TStep, seed int64) tickerRun {
 				if p {
 					r.lines = append(r.lines, fmt.Sprintf("new %d %d panic", st.A, st.B))
 					if validParams(st.A, st.B) {
-						setFail("ticker-panic-new", map[string]interface{}{"jitter_zero": st.B == 0},
+						setFail("ticker-panic-new", tickerParams(st.A, st.B),
 							fmt.Sprintf("NewJitterTicker(%s, %s) panicked: %v", dur(st.A), dur(st.B), pv))
 					}
 				} else {
@@ -406,6 +473,10 @@ func runTicker(t *testing.T, steps []TStep, seed int64) tickerRun {
 				if alive {
 					poll(false)
 				}
+			case "collect":
+				if alive {
+					collect()
+				}
 			case "reset":
 				if !alive {
 					continue
@@ -417,7 +488,7 @@ func runTicker(t *testing.T, steps []TStep, seed int64) tickerRun {
 				if p {
 					r.lines = append(r.lines, fmt.Sprintf("reset %d %d panic", st.A, st.B))
 					if validParams(st.A, st.B) {
-						setFail("ticker-panic-reset", map[string]interface{}{"jitter_zero": st.B == 0},
+						setFail("ticker-panic-reset", tickerParams(st.A, st.B),
 							fmt.Sprintf("Reset(%s, %s) panicked: %v", dur(st.A), dur(st.B), pv))
 						alive = false // the mutex may be held forever
 					}
@@ -968,6 +1039,38 @@ func bigTicker(r *vlib.Rand) []TStep {
 	return steps
 }
 
+// extremePairs: documented arguments (d > 0, 0 <= jitter < d) at the int64 boundaries: 2*jitter + 1 and
+// d + jitter at, just below and beyond MaxInt64 (D21).
+func extremePairs() [][2]int64 {
+	const p62 = int64(1) << 62
+	return [][2]int64{
+		{maxDur, maxDur - 1}, {p62 + 1, p62}, {p62, p62 - 1}, {maxDur, p62 >> 1}, {maxDur, 0}, {maxDur - 1, 1},
+		{p62 + 5, p62 - 3}, {maxDur, 1}, {maxDur, p62 - 1}, {maxDur, p62}, {p62 + 10, p62}, {maxDur - 1, p62 + 7},
+		{maxDur - 2, 2}, {maxDur, 2}, {p62 + p62>>1, p62 - 1}, {p62 + p62>>1, p62>>1 + 1},
+	}
+}
+
+// extremeTicker: a ticker created with (or Reset to) a pair of extremePairs, then observed WITHOUT letting
+// the clock run (a correct ticker's first tick is at least d - jitter away, which for these pairs is up to
+// 292 years; the virtual clock, which starts in the year 2000, cannot go that far). What can be seen at
+// once: a panic, and ticks that arrive although no time has passed ("collect" receives them one after the
+// other) - each of them less than d - jitter after its predecessor.
+func extremeTicker(d, j int64, viaReset bool, tail int64) []TStep {
+	var steps []TStep
+	if viaReset {
+		steps = append(steps, TStep{Op: "new", A: 1000, B: 1}, TStep{Op: "collect"}, TStep{Op: "reset", A: d, B: j})
+	} else {
+		steps = append(steps, TStep{Op: "new", A: d, B: j})
+	}
+	steps = append(steps, TStep{Op: "collect"}, TStep{Op: "wait"}, TStep{Op: "poll"})
+	if tail > 0 { // d - jitter is small: let a few periods pass as well
+		for i := 0; i < 3; i++ {
+			steps = append(steps, TStep{Op: "sleep", A: tail}, TStep{Op: "wait"}, TStep{Op: "poll"})
+		}
+	}
+	return append(steps, TStep{Op: "stop"}, TStep{Op: "wait"}, TStep{Op: "poll"})
+}
+
 // malformedTicker: arguments outside the documented domain (documented panics only).
 func malformedTicker(r *vlib.Rand) []TStep {
 	bad := func() (int64, int64) {
@@ -1135,6 +1238,12 @@ func (x *runner) do(c Case, tag string) {
 		}
 		x.res.Fail(vlib.Failure{Source: "monitor", Kind: f2.kind, Params: f2.params, What: f2.what, Case: c})
 	}
+	if c.NoModel && c.PanicModel && x.model != nil {
+		if pl := panicLines(c, lines); len(pl) > 0 {
+			x.mCases = append(x.mCases, c)
+			x.mLines = append(x.mLines, pl)
+		}
+	}
 	if !c.NoModel && x.model != nil {
 		x.mCases = append(x.mCases, c)
 		x.mLines = append(x.mLines, lines)
@@ -1142,6 +1251,27 @@ func (x *runner) do(c Case, tag string) {
 			x.flushModel()
 		}
 	}
+}
+
+// panicLines: what a PanicModel script asks the model: the outcome of `new d j` when it is the first step,
+// and of the first `reset d j` when the ticker was created as (1000, 1) (the state `resetp` starts from).
+func panicLines(c Case, lines []string) []string {
+	var out []string
+	if len(c.Steps) == 0 || c.Steps[0].Op != "new" {
+		return nil
+	}
+	fresh := c.Steps[0].A == 1000 && c.Steps[0].B == 1
+	for _, l := range lines {
+		f := strings.Fields(l)
+		if len(f) == 4 && f[0] == "new" && !fresh {
+			out = append(out, "newp "+strings.Join(f[1:], " "))
+		}
+		if len(f) == 4 && f[0] == "reset" && fresh {
+			out = append(out, "resetp "+strings.Join(f[1:], " "))
+			break
+		}
+	}
+	return out
 }
 
 // stillFails: the case shows the failure kind in one of a few runs (which ready select arm wins, and
@@ -1388,6 +1518,24 @@ func TestVerif(t *testing.T) {
 					}
 					x.do(Case{Kind: "ticker", Steps: gridTicker(d, j, at, op), Seed: seed()}, "ticker-grid")
 				}
+			}
+		}
+	}
+	// documented arguments at the int64 boundaries (D21): NewJitterTicker and Reset with each pair, under
+	// several seeds of math/rand (whether d + r - jitter leaves the int64 range depends on the draw r)
+	reps := 8
+	if env.Thorough() || env.Deep {
+		reps = 40
+	}
+	for _, p := range extremePairs() {
+		var tail int64
+		if p[0]-p[1] <= 1000 {
+			tail = p[0] - p[1]
+		}
+		for _, viaReset := range []bool{false, true} {
+			for i := 0; i < reps; i++ {
+				// monitors only, except for the panic outcome (the state-set engine enumerates the draws)
+				x.do(Case{Kind: "ticker", Steps: extremeTicker(p[0], p[1], viaReset, tail), Seed: seed(), NoModel: true, PanicModel: true}, "ticker-extreme")
 			}
 		}
 	}
